@@ -57,7 +57,10 @@ template <class T> static Elem<T> gen_ulp_elem(pbt::Ctx& c, int M, bool hi) {
 	const uint64_t cut = hi ? 24 : 13;
 	if (r < cut) { e.x = refulp::gen_base<T>(c); e.y = at(e.x, true); }
 	else if (r < 27) { e.x = refulp::gen_base<T>(c); e.y = at(e.x, false); }
-	else if (r == 27) { e.x = refulp::gen_base<T>(c); e.y = flip_sign(e.x); }
+	else if (r == 27) {  // mirrored value, half of the time with one exponent/mantissa bit flipped (opposite sign, nearly the same pattern)
+		e.x = refulp::gen_base<T>(c); e.y = flip_sign(e.x);
+		if (c.coin()) { T t = frombits<T>(tobits<T>(e.y) ^ (typename bits_of<T>::U(1) << c.draw(sizeof(T) * 8 - 1))); if (is_finite(t)) e.y = t; }
+	}
 	else if (r == 28) { e.x = refulp::gen_base<T>(c); e.y = refulp::gen_base<T>(c); }
 	else if (r < 31) { e.x = from_ordered<T>((typename bits_of<T>::S)c.range(-70, 70)); e.y = at(e.x, c.coin()); }
 	else { e.x = c.coin() ? flip_sign(T(0)) : T(0); e.y = c.coin() ? flip_sign(T(0)) : T(0); }
@@ -155,7 +158,8 @@ template <class T> static void prop_equal_ulps(pbt::Ctx& c) {
 		Elem<T>& p = e[i * 4 + j];
 		p = gen_ulp_elem<T>(c, Mc[i], j != 0);
 		typename refulp::wide<T>::type d = refulp::dist<T>(p.x, p.y);
-		c.logf("%s [col %d,row %d] x=%a [0x%llx] y=%a [0x%llx] dist=%lld maxULPs=%d", tname<T>(), i, j, (double)p.x, ubits(p.x), (double)p.y, ubits(p.y), (long long)(d > (1LL << 62) ? (1LL << 62) : d), Mc[i]);
+		if (i == 0 && j == 0) c.logf("%s, 16 pairs [column.row] x|y (steps apart / maxULPs)", tname<T>());
+		c.logf("[%d.%d] %a|%a (%lld/%d)", i, j, (double)p.x, (double)p.y, (long long)(d > (1LL << 62) ? (1LL << 62) : d), Mc[i]);
 		if (d == Mc[i] || d == (typename refulp::wide<T>::type)Mc[i] + 1) ++at_boundary;
 		if (d <= Mc[i]) ++inside; else ++outside;
 		const std::string pc = ulp_pair_class(p.x, p.y, Mc[i]);
@@ -352,7 +356,8 @@ template <class T> static void prop_equal_eps(pbt::Ctx& c) {
 		p = gen_eps_elem<T>(c, Ec[i], j != 0);
 		refulp::EpsPos pos = refulp::eps_position<T>(p.x, p.y, Ec[i]);
 		T a = (T)std::fabs((double)(T)(p.x - p.y));
-		c.logf("%s [col %d,row %d] x=%a y=%a epsilon=%a |fl(x-y)|=%a (%s)", tname<T>(), i, j, (double)p.x, (double)p.y, (double)Ec[i], (double)a, pos_name(pos));
+		if (i == 0 && j == 0) c.logf("%s, 16 pairs [column.row] x|y (epsilon, position of |x-y|)", tname<T>());
+		c.logf("[%d.%d] %a|%a (%a, %s)", i, j, (double)p.x, (double)p.y, (double)Ec[i], pos_name(pos));
 		switch (pos) {
 		case refulp::EP_BELOW: ++n_below; c.cls("|x-y| < epsilon"); break;
 		case refulp::EP_ABOVE: ++n_above; c.cls("|x-y| > epsilon"); break;
